@@ -49,8 +49,28 @@ theorem Frame_park (now : Nat) (t : Task) (c : Cmd) (rest : List Cmd) (hl : loca
       · exact Frame_lockOrFail _ _ _
     · constructor <;> simp [Task.held]
   case get k => split <;> constructor <;> simp [Task.held]
+  case expire k =>
+    split
+    · split
+      · constructor <;> simp [Task.held]
+      · exact Frame_lockOrFail _ _ _
+    · constructor <;> simp [Task.held]
+  case setx k v e =>
+    split
+    · split
+      · constructor <;> simp [Task.held]
+      · exact Frame_lockOrFail _ _ _
+    · constructor <;> simp [Task.held]
   case nestIn f => simp [localCmd] at hl
   case nestOut => simp [localCmd] at hl
+
+/-- deciding a conditional `set` is task-local code -/
+theorem setxApply_frame (t : Task) (k : Nat) (v : Int) (e p : Bool) :
+    (setxApply t k v e p).isTx = t.isTx ∧ (setxApply t k v e p).mode = t.mode ∧ (setxApply t k v e p).timeout = t.timeout ∧
+    (setxApply t k v e p).enterAt = t.enterAt ∧ (setxApply t k v e p).ctx = t.ctx ∧ (setxApply t k v e p).locks = t.locks ∧
+    (setxApply t k v e p).reads = t.reads ∧ (setxApply t k v e p).form = t.form ∧ (setxApply t k v e p).prog = t.prog ∧
+    (setxApply t k v e p).pc = t.pc := by
+  unfold setxApply; split <;> simp
 
 theorem localCmd_frame {t t' : Task} {c : Cmd} (hl : localCmd t c = some t') :
     t'.isTx = t.isTx ∧ t'.mode = t.mode ∧ t'.timeout = t.timeout ∧ t'.enterAt = t.enterAt ∧ t'.ctx = t.ctx ∧
@@ -70,6 +90,19 @@ theorem localCmd_frame {t t' : Task} {c : Cmd} (hl : localCmd t c = some t') :
       · split at hl <;> simp at hl; subst hl; simp
     · simp at hl
   case delete k => split at hl <;> simp at hl; subst hl; simp
+  case expire k =>
+    split at hl
+    · split at hl
+      · simp at hl; subst hl; simp
+      · split at hl <;> simp at hl; subst hl; simp
+    · simp at hl
+  case setx k v e =>
+    have f := fun p => setxApply_frame t k v e p
+    split at hl
+    · split at hl
+      · simp at hl; subst hl; exact ⟨(f _).1, (f _).2.1, (f _).2.2.1, (f _).2.2.2.1, (f _).2.2.2.2.1, (f _).2.2.2.2.2.1, (f _).2.2.2.2.2.2.1, (f _).2.2.2.2.2.2.2.1⟩
+      · split at hl <;> simp at hl; subst hl; exact ⟨(f _).1, (f _).2.1, (f _).2.2.1, (f _).2.2.2.1, (f _).2.2.2.2.1, (f _).2.2.2.2.2.1, (f _).2.2.2.2.2.2.1, (f _).2.2.2.2.2.2.2.1⟩
+    · simp at hl
   case sleep d => simp at hl
   case raise => simp at hl
   case nestIn f => simp at hl; subst hl; simp
@@ -90,6 +123,30 @@ theorem Frame_settle (now : Nat) (prog : List Cmd) (t : Task) : Task.Frame t (se
     have f := Frame_park now t1 c rest hl
     exact ⟨f.isTx.trans h.1, f.mode.trans h.2.1, f.timeout.trans h.2.2.1, f.enterAt.trans h.2.2.2.1,
       f.ctx.trans h.2.2.2.2.1, f.held.trans h.2.2.2.2.2⟩
+
+/-- buffering the backend's value for `expire` is task-local as well -/
+theorem expBuffer_frame (t : Task) (k : Nat) (cur : Option Int) :
+    (expBuffer t k cur).isTx = t.isTx ∧ (expBuffer t k cur).mode = t.mode ∧ (expBuffer t k cur).timeout = t.timeout ∧
+    (expBuffer t k cur).enterAt = t.enterAt ∧ (expBuffer t k cur).ctx = t.ctx ∧ (expBuffer t k cur).locks = t.locks ∧
+    (expBuffer t k cur).prog = t.prog ∧ (expBuffer t k cur).del = t.del ∧ (expBuffer t k cur).results = t.results ∧
+    (expBuffer t k cur).reads = t.reads ++ [cur] := by
+  cases cur <;> simp [expBuffer]
+
+theorem Frame_settle_expBuffer (now : Nat) (t : Task) (k : Nat) (cur : Option Int) :
+    Task.Frame t (settle now (expBuffer t k cur).prog (expBuffer t k cur)) := by
+  have f := Frame_settle now (expBuffer t k cur).prog (expBuffer t k cur)
+  have e := expBuffer_frame t k cur
+  exact ⟨f.isTx.trans e.1, f.mode.trans e.2.1, f.timeout.trans e.2.2.1, f.enterAt.trans e.2.2.2.1,
+    f.ctx.trans e.2.2.2.2.1, f.held.trans e.2.2.2.2.2.1⟩
+
+theorem Frame_settle_setx (now : Nat) (t : Task) (k : Nat) (v : Int) (e p : Bool) (x : Option Int) :
+    Task.Frame t (settle now (setxApply { t with reads := t.reads ++ [x] } k v e p).prog
+      (setxApply { t with reads := t.reads ++ [x] } k v e p)) := by
+  have f := Frame_settle now (setxApply { t with reads := t.reads ++ [x] } k v e p).prog
+    (setxApply { t with reads := t.reads ++ [x] } k v e p)
+  have g := setxApply_frame { t with reads := t.reads ++ [x] } k v e p
+  exact ⟨f.isTx.trans g.1, f.mode.trans g.2.1, f.timeout.trans g.2.2.1, f.enterAt.trans g.2.2.2.1,
+    f.ctx.trans g.2.2.2.2.1, f.held.trans g.2.2.2.2.2.1⟩
 
 /-- waking up keeps identity and held locks -/
 theorem wake_frame (now : Nat) (t : Task) :
@@ -294,6 +351,20 @@ theorem LockInv_runTask (w : World) (tid : Nat) (hti : w.AllTI) (hi : w.LockInv)
     · exact (Frame_settle _ _ _).enterAt
     · exact (Frame_settle _ _ _).timeout
     · exact (Frame_settle _ _ _).ctx
+  case expGet k =>
+    have f := Frame_settle_expBuffer w.now (w.tasks tid) k (w.store k)
+    refine LockInv_runTask_same w tid hi ?_ ?_ ?_ ?_ ?_ <;> rw [taskStep_expGet _ _ _ _ _ hpc] <;> dsimp only
+    · exact f.held.trans (by simp [Task.held, hpc])
+    · exact f.enterAt
+    · exact f.timeout
+    · exact f.ctx
+  case existsGet k v e =>
+    have f := Frame_settle_setx w.now (w.tasks tid) k v e (w.store k).isSome (w.store k)
+    refine LockInv_runTask_same w tid hi ?_ ?_ ?_ ?_ ?_ <;> rw [taskStep_existsGet _ _ _ _ _ hpc] <;> dsimp only
+    · exact f.held.trans (by simp [Task.held, hpc])
+    · exact f.enterAt
+    · exact f.timeout
+    · exact f.ctx
   case direct c =>
     have hheld : (w.tasks tid).held = (w.tasks tid).locks := by simp [Task.held, hpc]
     refine LockInv_runTask_same w tid hi ?_ ?_ ?_ ?_ ?_ <;> rw [taskStep_direct _ _ _ _ _ hpc] <;>
